@@ -301,10 +301,22 @@ func (d *driver) curCheck() *checkRun {
 }
 
 func callbackURI(f *FilterSpec) string {
-	if f.SharedCallback {
-		return "https://" + appHost + "/shared/callback"
+	host := appHost
+	if f.CallbackPort != "" {
+		host += ":" + f.CallbackPort
 	}
-	return "https://" + appHost + "/" + f.Name + "/callback"
+	if f.SharedCallback {
+		return "https://" + host + "/shared/callback"
+	}
+	return "https://" + host + "/" + f.Name + "/callback"
+}
+
+func callbackPath(f *FilterSpec) string {
+	u, err := url.Parse(callbackURI(f))
+	if err != nil {
+		panic(err)
+	}
+	return u.Path
 }
 func logoutPath(f *FilterSpec) string {
 	if f.InheritLogout && f.inheritedLogoutPath != "" {
@@ -799,7 +811,7 @@ func (d *driver) prepare(st *Step) (*checkRun, *envoy.CheckRequest) {
 			}
 		}
 		q, states, codes := callbackQuery(st.QShape, stateVal, codeVal, stateSym, codeSym)
-		path = strings.TrimPrefix(callbackURI(f), "https://"+appHost)
+		path = callbackPath(f)
 		if q != "\x00" {
 			path += "?" + q
 		}
@@ -827,7 +839,11 @@ func (d *driver) prepare(st *Step) (*checkRun, *envoy.CheckRequest) {
 	if cookieVal != "" {
 		switch st.Decoy {
 		case "before":
-			headers["cookie"] = "theme=dark; x" + cname + "=decoyDecoyDecoy0000000000; " + cname + "=" + cookieVal + "; other=1"
+			decoy := "decoyDecoyDecoy0000000000"
+			if v, ok := d.nthSid(st.DecoySid); st.DecoySid != "" && ok {
+				decoy = v // another live session's id, planted under a look-alike name (anyone can set a cookie called x__Host-...)
+			}
+			headers["cookie"] = "theme=dark; x" + cname + "=" + decoy + "; " + cname + "=" + cookieVal + "; other=1"
 		case "only":
 			// the value is NOT in the session cookie: the request carries no session as far as the service is concerned
 			headers["cookie"] = "theme=dark; x" + cname + "=" + cookieVal + "; other=1"
